@@ -178,7 +178,7 @@ Init == tbl = {} /\ gone = {} /\ seenBy = {} /\ bad = {} /\ ph = "build" /\ Prin
 \* force stays the last one that was accepted, whatever valid entries preceded the invalid one.
 RejectDoc(i, j) == /\ ph = "ask" /\ MaxBad = 2 /\ bad = {} /\ seenBy = {} /\ i < j /\ RPat(i) = RPat(j)   \* two routes of one host
                    /\ bad' = {i, j} /\ UNCHANGED <<tbl, gone, seenBy, ph>>
-Observe(o) == /\ ph = "ask" /\ o \in ObsSel \ seenBy /\ Cardinality(seenBy) < MaxObs
+Observe(o) == /\ ph = "ask" /\ bad = {} /\ o \in ObsSel \ seenBy /\ Cardinality(seenBy) < MaxObs
               /\ seenBy' = seenBy \cup {o} /\ UNCHANGED <<tbl, gone, bad, ph>>
 \* route add
 Grow(i) == /\ ph = "build" /\ Cardinality(tbl) < MaxRoutes /\ i \notin tbl \cup gone
